@@ -51,8 +51,11 @@ fn check() {
     let outcomes = Distinct::default();
     let mut samples = vec![];
 
-    // ---- round robin: every member count 1..5, every cursor offset 0..2n, every window of k*n selections (k = 1..3)
-    for n in 1..=5usize {
+    // ---- round robin: every member count in member_counts, every cursor offset 0..2n, every window of k*n selections (k = 1..3)
+    // member counts: every count up to a dozen (a shortcut for "even" or "power of two" lengths shows at 6, 10, 12), the
+    // neighbours of 16, and more in the thorough tier
+    let member_counts: Vec<usize> = if chk.thorough() { (1..=24).chain([31, 32, 33, 48, 64, 65]).collect() } else { (1..=12).chain([16, 17]).collect() };
+    for &n in &member_counts {
         for offset in 0..=2 * n {
             for k in 1..=3usize {
                 let log: Log = Default::default();
@@ -198,7 +201,7 @@ fn check() {
         }
         v
     };
-    for n in 1..=5usize {
+    for &n in &member_counts {
         for (key, keyfn) in &keys {
             let log: Log = Default::default();
             let mut cs = members(n, &log);
@@ -263,7 +266,7 @@ fn check() {
 
     // ---- random: members only (exhaustive per call), every member hit (sampling: 4000 draws, labelled as such)
     let mut random_draws = 0u64;
-    for n in 1..=5usize {
+    for n in 1..=8usize {
         let log: Log = Default::default();
         let mut cs = members(n, &log);
         let mut b = lb_from_yaml(&lb_yaml(n, "algo: random")).expect("random lb");
@@ -306,7 +309,7 @@ fn check() {
         machinery("the loom part (bin/check runs it first, feature loomlb) did not produce target/c17-loom.json");
     }
 
-    if selections < 2000 || outcomes.len() < 20 {
+    if chk.violation_count() == 0 && (selections < 2000 || outcomes.len() < 20) {
         machinery(format!("vacuous: selections={selections} outcomes={}", outcomes.len()));
     }
     let loom_cov = loom.clone().unwrap_or(json!({}));
@@ -314,7 +317,7 @@ fn check() {
         "exhaustive": true,
         "states": outcomes.len(), "transitions": selections, "traces_validated_against_impl": selections + loom_cov["schedules"].as_u64().unwrap_or(0),
         "evaluations": selections + random_draws, "distinct_nontrivial": outcomes.len(),
-        "rule": "sequential: every member count 1..5 x cursor offset 0..2n x window k*n (k=1..3) through the real connect(); hashBy: 7 key expressions x 36-request pool twice x member counts 1..5; nested balancers (2-3 levels) and refusing members x 3 algorithms: the recorded member is the leaf that was asked to connect; loom: all interleavings of 2-3 threads x 1-3 selections on the real connect() with the cursor as a loom atomic. distinct = distinct (members, key, selected member) observations",
+        "rule": "sequential: every member count 1..12, 16, 17 (thorough 1..24, 31..33, 48, 64, 65) x cursor offset 0..2n x window k*n (k=1..3) through the real connect(); hashBy: 7 key expressions x 36-request pool twice x the same member counts; nested balancers (2-3 levels) and refusing members x 3 algorithms: the recorded member is the leaf that was asked to connect; loom: all interleavings of 2-3 threads x 1-3 selections on the real connect() with the cursor as a loom atomic. distinct = distinct (members, key, selected member) observations",
         "loom": loom_cov,
         "random_draws_sampled": random_draws,
         "samples": samples,
